@@ -439,8 +439,14 @@ Proof.
     + destruct (tagged_null _); [discriminate|].
       apply bind_np; [apply determine_smp_np|]. intros r. destruct (fst r); discriminate.
   - intros b srcs. unfold m2_visit_list. destruct (negb b); [destruct (origin_of srcs); discriminate|].
-    destruct (o_null _); [discriminate|]. destruct (tagged_null _); [discriminate|].
-    apply bind_np; [apply determine_smp_np|]. intros r. destruct (fst r); discriminate.
+    destruct (o_null (dest_of srcs)).
+    + destruct (o_null (origin_of srcs)); [discriminate|].
+      destruct (determine_smp (origin_of srcs)) as [[ps o]| | |];
+        repeat match goal with
+               | |- context [match ?x with _ => _ end] => destruct x
+               end; discriminate.
+    + destruct (tagged_null _); [discriminate|].
+      apply bind_np; [apply determine_smp_np|]. intros r. destruct (fst r); discriminate.
   - intros srcs. unfold m2_visit_scalar. destruct (origin_of srcs); discriminate.
 Qed.
 
